@@ -11,6 +11,7 @@ import (
 	"net"
 	"os"
 	"path/filepath"
+	"strings"
 	"testing"
 	"time"
 
@@ -27,24 +28,41 @@ func c18FreePort() int {
 	return p
 }
 
-// canBind reports whether both the TCP and the UDP port are free again (retries briefly: closing is asynchronous in some servers).
+// c18CanBind reports whether this process no longer holds a listening (TCP: state LISTEN; UDP: any) socket on the port.
+// (Trying to bind the port again is not a sound test: a connection socket lingering in FIN_WAIT2/TIME_WAIT without
+// SO_REUSEADDR - gnet does not set it - blocks a new bind although no listening socket is left.)
 func c18CanBind(proto string, port int) bool {
+	udp := proto == "udp" || proto == "quic"
 	for i := 0; i < 100; i++ {
-		var err error
-		if proto == "udp" || proto == "quic" {
-			var c net.PacketConn
-			c, err = net.ListenPacket("udp", fmt.Sprintf("127.0.0.1:%d", port))
-			if err == nil {
-				c.Close()
-				return true
+		own := map[string]bool{}
+		ents, _ := os.ReadDir("/proc/self/fd")
+		for _, e := range ents {
+			if l, err := os.Readlink("/proc/self/fd/" + e.Name()); err == nil && strings.HasPrefix(l, "socket:[") {
+				own[strings.TrimSuffix(strings.TrimPrefix(l, "socket:["), "]")] = true
 			}
-		} else {
-			var l net.Listener
-			l, err = net.Listen("tcp", fmt.Sprintf("127.0.0.1:%d", port))
-			if err == nil {
-				l.Close()
-				return true
+		}
+		held := false
+		files := []string{"tcp", "tcp6"}
+		if udp {
+			files = []string{"udp", "udp6"}
+		}
+		for _, f := range files {
+			b, _ := os.ReadFile("/proc/self/net/" + f)
+			for _, l := range strings.Split(string(b), "\n") {
+				fs := strings.Fields(l)
+				if len(fs) < 10 || !strings.HasSuffix(fs[1], fmt.Sprintf(":%04X", port)) {
+					continue
+				}
+				if !udp && fs[3] != "0A" {
+					continue
+				}
+				if own[fs[9]] {
+					held = true
+				}
 			}
+		}
+		if !held {
+			return true
 		}
 		time.Sleep(50 * time.Millisecond)
 	}
@@ -57,7 +75,7 @@ func TestVerifC18Startup(t *testing.T) {
 	healthy := []string{"udp", "tcp", "gnet", "http", "fasthttp", "tls", "https", "quic"}
 	failing := []string{"port-in-use", "missing-cert", "unknown-protocol", "bad-listen-address"}
 	rep.Rule = fmt.Sprintf("real run() on loopback: 3-server configurations with one failing entry %v at index 0,1,2 and the other two entries drawn (rotating) from the healthy kinds %v; plus every healthy kind alone, closed twice; "+
-		"oracle: run() returns an error without panicking, every port bound by the healthy entries can be bound again afterwards; a healthy router's close() is idempotent and frees its ports; distinct = distinct configurations", failing, healthy)
+		"oracle: run() returns an error without panicking, no listening socket of the healthy entries is left in the process afterwards (own-fd x /proc/net LISTEN/UDP check); a healthy router's close() is idempotent and frees its ports, also with a request in flight against a silent upstream (udp, tcp, gnet, http, fasthttp); distinct = distinct configurations", failing, healthy)
 	if sh, _ := report.Shard(); sh != 0 {
 		rep.Eval("idle-shard")
 		rep.Eval("idle-shard2")
@@ -164,6 +182,84 @@ func TestVerifC18Startup(t *testing.T) {
 		}
 		if !c18CanBind(kind, port) {
 			rep.Violate("C18:close:port-leaked:"+kind, fmt.Sprintf("after close the %s listener on port %d is still bound", kind, port), nil)
+		}
+	}
+	// close while requests are in flight: a client has a query outstanding against an upstream that never answers
+	silent, err := net.Listen("tcp", "127.0.0.1:0")
+	if err == nil {
+		defer silent.Close()
+		go func() {
+			for {
+				c, err := silent.Accept()
+				if err != nil {
+					return
+				}
+				defer c.Close() // accept and stay silent
+			}
+		}()
+		for _, kind := range []string{"udp", "tcp", "gnet", "http", "fasthttp"} {
+			port := c18FreePort()
+			cfg := &Config{Servers: []ServerConfig{mkServer(kind, port)},
+				Upstreams: []UpstreamConfig{{Tag: "u", Addr: "tcp://" + silent.Addr().String()}}, Rules: []RuleConfig{{Forward: "u"}}}
+			desc := "close with a request in flight, listener " + kind
+			rep.Eval(desc)
+			r, err, p := runCfg(cfg)
+			if p != nil || err != nil {
+				rep.Violate("C18:startup:healthy-config-failed:"+kind, fmt.Sprintf("%v %v", err, p), nil)
+				continue
+			}
+			q := []byte{0x12, 0x34, 1, 0, 0, 1, 0, 0, 0, 0, 0, 0, 1, 'a', 0, 0, 1, 0, 1}
+			addr := fmt.Sprintf("127.0.0.1:%d", port)
+			var cc net.Conn
+			switch kind {
+			case "udp":
+				cc, _ = net.Dial("udp", addr)
+				if cc != nil {
+					cc.Write(q)
+				}
+			case "tcp", "gnet":
+				cc, _ = net.DialTimeout("tcp", addr, 3*time.Second)
+				if cc != nil {
+					cc.Write(append([]byte{0, byte(len(q))}, q...))
+				}
+			default:
+				cc, _ = net.DialTimeout("tcp", addr, 3*time.Second)
+				if cc != nil {
+					fmt.Fprintf(cc, "POST /dns-query HTTP/1.1\r\nHost: x\r\nContent-Type: application/dns-message\r\nContent-Length: %d\r\n\r\n%s", len(q), q)
+				}
+			}
+			time.Sleep(300 * time.Millisecond) // the request is now waiting for the silent upstream
+			done := make(chan any, 1)
+			t0 := time.Now()
+			go func() {
+				defer func() { done <- recover() }()
+				r.close(nil)
+				r.close(nil)
+			}()
+			select {
+			case p := <-done:
+				if p != nil {
+					rep.Violate("C18:close-inflight:panic:"+kind, fmt.Sprint(p), nil)
+				}
+				if d := time.Since(t0); d > 20*time.Second {
+					rep.Violate("C18:close-inflight:slow:"+kind, fmt.Sprintf("router close took %v with one request in flight", d), nil)
+				}
+			case <-time.After(60 * time.Second):
+				rep.Violate("C18:close-inflight:blocks:"+kind, "router close did not return within 60 s while a request was in flight", nil)
+			}
+			if cc != nil {
+				cc.Close()
+			}
+			tb := time.Now()
+			freed := false
+			for i := 0; i < 8 && !freed; i++ { // up to ~40 s
+				freed = c18CanBind(kind, port)
+			}
+			if !freed {
+				rep.Violate("C18:close-inflight:port-leaked:"+kind, fmt.Sprintf("after close the %s listener on port %d is still bound (waited %v)", kind, port, time.Since(tb)), nil)
+			} else if d := time.Since(tb); d > 3*time.Second {
+				rep.Note(fmt.Sprintf("%s listener port was released %v after close returned", kind, d))
+			}
 		}
 	}
 	rep.Sample(map[string]any{"servers": "[udp ok, tcp port-in-use, quic ok]", "expect": "run() returns an error; the udp port is free again"})
